@@ -2,7 +2,7 @@
 import copy, random
 from . import common, projgen, projcheck, projrun, ninjaparse
 
-PROF = projgen.profile(p_app_dup=0.4, n_builders=(2, 4), n_apps=(2, 3), p_subdir=0.6, p_partition=0.5, p_local=0.3, p_cli_builders=0.4, p_cli_apps=0.4,
+PROF = projgen.profile(p_app_dup=0.4, p_rule_field_variant=0.3, n_builders=(2, 4), n_apps=(2, 3), p_subdir=0.6, p_partition=0.5, p_local=0.3, p_cli_builders=0.4, p_cli_apps=0.4,
                        p_tasks=0.05, p_custom_build=0.1, p_build_dep=0.2, p_download=0.05, p_nobindir=0.0)
 OBS = ("status", "decision", "modules", "loaded", "ninja")
 
